@@ -22,6 +22,12 @@ SCEN_ONE = {
 SCEN_PERS = {
     'p2': dict(target='p_work', targs=[0, '$DIR'], inputs=[[1], [2]], own=('value', '2')),
     'pfail': dict(target='p_work', targs=[0, '$DIR'], inputs=[[1], [2, '$DIR', 4, True], [3]], own=('error', 'CustomError')),
+    'p0': dict(target='p_work', targs=[0, '$DIR'], inputs=[], own=('value', '0')),
+    'p1': dict(target='p_work', targs=[0, '$DIR'], inputs=[[1]], own=('value', '1')),
+    'p3': dict(target='p_work', targs=[0, '$DIR'], inputs=[[1], [2], [3]], own=('value', '3')),
+    'p5': dict(target='p_work', targs=[0, '$DIR'], inputs=[[1], [2], [3], [4], [5]], own=('value', '5')),
+    'pfail1': dict(target='p_work', targs=[0, '$DIR'], inputs=[[1, '$DIR', 4, True], [2]], own=('error', 'CustomError')),
+    'pfail3': dict(target='p_work', targs=[0, '$DIR'], inputs=[[1], [2], [3, '$DIR', 4, True], [4]], own=('error', 'CustomError')),
 }
 TARGET_FUNCS = {'py_loop', 'short_work', 'short_raise', 'with_block', 'p_work'}
 
@@ -150,7 +156,7 @@ def shape(obs, own):
 
 # ---------------------------------------------------------------- running the matrix
 
-def run_matrix(tier, classes, scens_one, scens_pers, salt, action=None, parallel=16, events='ebp', inject_action='await', extra_repeats=8, per_class_cap=None):
+def run_matrix(tier, classes, scens_one, scens_pers, salt, action=None, parallel=16, events='ebp', inject_action='await', extra_repeats=8, per_class_cap=None, spec_extra=None):
     """Returns (cases, traces).  case = dict(cls, scen, k, own, res, rec_event)."""
     wd = workdir('lp_' + salt)
     jobs = []
@@ -160,6 +166,7 @@ def run_matrix(tier, classes, scens_one, scens_pers, salt, action=None, parallel
     def rec(cs):
         cls, scen = cs
         spec, own = scenario_spec(cls, scen)
+        spec.update(spec_extra or {})
         a = arm_args(cls)
         files = a['files'] if events == 'ebp' else None
         tr, res = lpi.record(spec, os.path.join(wd, 'rec_%s_%s' % (cls, scen)), events=events, files=files,
@@ -178,11 +185,12 @@ def run_matrix(tier, classes, scens_one, scens_pers, salt, action=None, parallel
             pts = sorted(rng('cap', salt, cls, scen).sample(pts, per_class_cap))
         byi = {e['i']: e for e in tr if 'i' in e}
         for k in pts:
-            jobs.append((cls, scen, k, byi.get(k)))
+            jobs.append((cls, scen, k, dict(byi.get(k) or {}, at=lpi.at_of(tr, k))))
 
     def one(job):
         cls, scen, k, rec_event = job
         spec, own = scenario_spec(cls, scen)
+        spec.update(spec_extra or {})
         a = arm_args(cls)
         act = dict(default_action)
         if 'Remote' in cls and act.get('kind') == 'terminate':
@@ -191,7 +199,7 @@ def run_matrix(tier, classes, scens_one, scens_pers, salt, action=None, parallel
         spec['wait_timeout'] = 20
         files = a['files'] if events == 'ebp' else None
         res = lpi.act(spec, os.path.join(wd, 'act_%s_%s_%d' % (cls, scen, k)), k, action=inject_action, events=events, files=files,
-                      arm_func=a['arm_func'], arm_cls=a['arm_cls'], arm_caller=a.get('arm_caller'), await_s=(3 if tier == 'thorough' else 1.5))
+                      arm_func=a['arm_func'], arm_cls=a['arm_cls'], arm_caller=a.get('arm_caller'), await_s=(3 if tier == 'thorough' else 1.5), at=(rec_event or {}).get('at'))
         cleanup(res['dir'])
         return dict(cls=cls, scen=scen, k=k, own=own, res=res, rec_event=rec_event)
 
@@ -204,7 +212,7 @@ def digest(case):
     """Flatten what the oracles need out of a case log."""
     res = case['res']
     ev = res['events']
-    out = dict(point=None, terminate=None, observations=[], marks={}, death=None, injector={}, hangs=[], raises=[], results=[], stream_end=None, after_end=None,
+    out = dict(point=None, terminate=None, observations=[], marks={}, death=None, injector={}, hangs=[], raises=[], results=[], stream_end=None, after_end=None, mux=[], mux_end=None,
                timed_out=res['timed_out'], fatal=None, created=None)
     for e in ev:
         t = e.get('ev')
@@ -232,6 +240,10 @@ def digest(case):
             out['results'].append(e.get('raw'))
         elif t == 'stream_end':
             out['stream_end'] = e['how']
+        elif t == 'mux_msg':
+            out['mux'].append((e['counter'], e['flag'], e['value']))
+        elif t == 'mux_end':
+            out['mux_end'] = e['how']
         elif t == 'after_end':
             out['after_end'] = e
         elif t == 'created':
@@ -336,3 +348,15 @@ def run_block(point):
         if fn in ('_run', '_run_backend') and f in ('thread.py', 'process.py', 'remote.py'):
             return _run_map(f, fn).get(ln, 'top')
     return 'outside-run'
+
+
+def stdlib_internal(point):
+    """Landing inside threading/queue lock handling (reachable for thread kinds, where threading.py is
+    monitored): the standard library itself is not async-exception safe there."""
+    p = point or {}
+    if p.get('file') not in ('threading.py', 'queue.py'):
+        return False
+    stack = p.get('stack') or []
+    # the start-up Event.set() window of ThreadWorker._run is pyworkers' business, everything else is not
+    in_startup_set = any(fr[1] == 'set' for fr in stack) and not any(fr[1] in ('do_work', '_cleanup', '_send_result', '_init_child') for fr in stack)
+    return not in_startup_set
